@@ -159,6 +159,26 @@ def struct_unpack(I, args, kw):
     return tuple(out)
 
 
+class StructObj(object):
+    """struct.Struct(fmt): pack/unpack with the fixed format (same T-STRUCT model as struct.pack/unpack)"""
+
+    def __init__(self, fmt):
+        self.fmt = fmt
+
+    def call_method(self, I, ref, name, args, kw):
+        if name == 'pack':
+            return struct_pack(I, [self.fmt] + list(args), kw)
+        if name == 'unpack':
+            return struct_unpack(I, [self.fmt, args[0]], kw)
+        return NotImplemented
+
+
+def struct_Struct(I, args, kw):
+    if not isinstance(args[0], str):
+        raise Undecided('struct.Struct with symbolic format')
+    return I.ctx.alloc(StructObj(args[0]))
+
+
 class BImg(object):
     """mmap object over a file: `arr(i)` byte at i (z3 Int), `size` its length.  T-MMAP."""
 
